@@ -68,6 +68,10 @@ pub enum Op {
     CloneAndContinue,
     /// Replace the value by a fresh one filled with `insert_raw` in the current iteration order.
     RebuildFromIteration,
+    /// A fault between two operations: on a scratch value (and through the parser) a conversion that
+    /// is refused because `bad_alg` carries invalid hex, while `good_alg` is well-formed. Its outcome is
+    /// not judged (invalid hex is outside C12); what follows must be unaffected by it.
+    RefusedConversion { good_alg: String, bad_alg: String, bad_hex: String },
     /// Serialise a clone, parse the text back, compare with the model (also done at the end).
     RoundTripText,
     /// Put the value into a builder (typed, or as respelled text) and build (also done at the end).
@@ -508,6 +512,18 @@ fn run_plan(sc: &Scenario, plan_no: usize, plan: HashPlan, log: &mut Log, stats:
                 }
                 c = fresh;
             },
+            Op::RefusedConversion { good_alg, bad_alg, bad_hex } => {
+                let mut scratch = Checksum::default();
+                scratch.insert_raw(good_alg, "00ff".to_owned());
+                scratch.insert_raw(bad_alg, bad_hex.clone());
+                let typed = guarded(move || SmallStr::try_from(scratch).is_ok())
+                    .map_err(|p| violation!("C12.panic_in_serialize", "{at}: converting a checksum with invalid hex {bad_hex:?} panicked: {p}"))?;
+                let input = format!("pkg:generic/n?checksum={good_alg}:00ff,{bad_alg}:{bad_hex}");
+                let parsed = guarded(|| GenericPurl::<String>::from_str(&input).is_ok())
+                    .map_err(|p| violation!("C12.panic_in_parse", "{at}: parsing {input:?} panicked: {p}"))?;
+                stats.bump("refused_conversion_injected");
+                ev!(log, "{at} refused conversion injected: typed accepted={typed} parser accepted={parsed}");
+            },
             Op::RoundTripText => {
                 let t = serialise(&c, &model, &at)?;
                 if let Some(t) = &t {
@@ -641,6 +657,13 @@ impl Sim for C12 {
             "blake2b-384", "sha3-256", "sha3-512", "sha512-256", "sha512-224", "SHA512-256", "sha512-256x",
             "sha-1", "sha_1", "sha1 ", " sha1", "sha1:", ":sha1", "a:b:c", "ss", "ß", "ẞ", "ǈ", "ǉ", "k", "K",
             "a_b", "A_B", "a^b", "a[b", "a`b", "a{b", "a~b", "a\\b",
+            // Capital sigma: char-wise lower-casing gives σ everywhere, a context-sensitive one would
+            // give the final form ς at the end of a word and so split the case variants of one name.
+            "ΟΔΟΣ", "οδοσ", "οδος", "Σ", "σ", "ς", "ΑΣ", "ασ", "ΑΣ1", "Σα",
+            // Around the inline capacity of small strings (23 bytes), and a long name.
+            "abcdefghijklmnopqrstuv", "abcdefghijklmnopqrstuvw", "abcdefghijklmnopqrstuvwx", "ABCDEFGHIJKLMNOPQRSTUVWX",
+            "a-very-long-algorithm-name-0123456789-0123456789-0123456789-0123456789-x",
+            "\tsha1", "\u{3000}sha1", "sha1\t",
         ];
         const MODES: &[Mode] = &[
             Mode::Keyed,
@@ -716,7 +739,17 @@ impl Sim for C12 {
                         Op::RebuildFromIteration
                     }
                 },
-                10 => Op::RoundTripText,
+                10 => {
+                    if rng.chance(1, 2) {
+                        Op::RoundTripText
+                    } else {
+                        Op::RefusedConversion {
+                            good_alg: (*rng.pick(&["aaa", "0", "sha1", "a"])).to_owned(),
+                            bad_alg: (*rng.pick(&["zzz", "zz", "sha9", "~"])).to_owned(),
+                            bad_hex: (*rng.pick(&["0", "zz", "0g", "abc", "-"])).to_owned(),
+                        }
+                    }
+                },
                 11 => Op::ViaBuilder { typed: rng.chance(1, 2) },
                 12 => Op::ViaParser,
                 _ => Op::Remove { alg: lower(&alg(&mut rng)) },
@@ -899,7 +932,7 @@ impl Sim for C12 {
                 unmet.push(format!("{mode} never used"));
             }
         }
-        for probe in ["overwrite.case_variant", "remove_to_empty", "growth_threshold_crossed", "insertion_order_permuted", "runs_with_differing_iteration_orders"] {
+        for probe in ["overwrite.case_variant", "remove_to_empty", "growth_threshold_crossed", "insertion_order_permuted", "runs_with_differing_iteration_orders", "refused_conversion_injected"] {
             if stats.get(probe) == 0 {
                 unmet.push(format!("probe {probe} stuck at zero"));
             }
@@ -923,6 +956,7 @@ impl Sim for C12 {
                     "case-variant overwrite": stats.get("overwrite.case_variant"),
                     "same-case overwrite": stats.get("overwrite.same_case"),
                     "remove to empty": stats.get("remove_to_empty"),
+                    "refused conversion (invalid hex on a scratch value and through the parser) injected between operations": stats.get("refused_conversion_injected"),
                     "final set re-inserted in permuted order / other case": stats.get("insertion_order_permuted"),
                     "runs in which two hash plans iterated the same set differently": stats.get("runs_with_differing_iteration_orders"),
                 },
